@@ -14,21 +14,21 @@ import (
 // applySpec: the canonical "apply an ordered write list to a committed root"
 // sequence on one tree variable.
 func applySpec() *core.FlowSpec {
-	kvField := func(field string) core.ExprPred {
-		// X.KV[i].<field>
-		return func(c *core.Ctx, e ast.Expr) bool {
-			sel, ok := ast.Unparen(e).(*ast.SelectorExpr)
-			if !ok || sel.Sel.Name != field {
-				return false
-			}
-			ix, ok := ast.Unparen(sel.X).(*ast.IndexExpr)
-			return ok && core.IsObj("types.StoreSet.KV")(c, ix.X)
+	// <element of X.KV>.<field>, the element being KV[i] or the value variable of a range over KV
+	elem := func(c *core.Ctx, e ast.Expr, field string) (bool, string) {
+		sel, ok := ast.Unparen(e).(*ast.SelectorExpr)
+		if !ok || sel.Sel.Name != field {
+			return false, ""
 		}
+		return core.ElemOf(c, sel.X, core.IsObj("types.StoreSet.KV"))
+	}
+	kvField := func(field string) core.ExprPred {
+		return func(c *core.Ctx, e ast.Expr) bool { ok, _ := elem(c, e, field); return ok }
 	}
 	sameIndex := func(c *core.Ctx, a, b ast.Expr) bool {
-		ia := ast.Unparen(ast.Unparen(a).(*ast.SelectorExpr).X).(*ast.IndexExpr)
-		ib := ast.Unparen(ast.Unparen(b).(*ast.SelectorExpr).X).(*ast.IndexExpr)
-		return core.CanonExpr(c, ia.Index) == core.CanonExpr(c, ib.Index) && core.CanonExpr(c, ia.X) == core.CanonExpr(c, ib.X)
+		_, ia := elem(c, a, "Key")
+		_, ib := elem(c, b, "Value")
+		return ia != "" && ia == ib
 	}
 	return &core.FlowSpec{
 		Assume: func(c *core.Ctx, e ast.Expr) core.Tri {
@@ -336,8 +336,8 @@ func init() {
 						"types.(*MAVLProof).GetInnerNodes":               "generated getter",
 					},
 					NonNil: map[string]string{
-						mdb + "InnerNodeProofHash:branch": "element of the repeated field InnerNodes filled by proto.Unmarshal (assumption: no nil elements)",
-						mdb + "VerifyKVPairProof:proofnode": "result of ReadProof whose error was tested first (R03b)",
+						mdb + "InnerNodeProofHash:#1": "element of the repeated field InnerNodes filled by proto.Unmarshal (assumption: no nil elements)",
+						mdb + "VerifyKVPairProof:=" + mdb + "ReadProof": "result of ReadProof whose error was tested first (R03b)",
 					},
 					Min: 20,
 				}.Check(r)
@@ -458,6 +458,10 @@ func init() {
 			}),
 			rule("R04b", "node records are deleted only by the pruner, and only with pruning enabled", 8, func(r *Run) {
 				dels := core.Names("common/db.Batch.Delete", "common/db.DB.Delete", "common/db.DB.DeleteSync")
+				pruneNames := map[string]bool{}
+				for k := range pruneSet {
+					pruneNames[k] = true
+				}
 				n := 0
 				for _, pp := range []string{"system/store/mavl/db", "system/store/mavl"} {
 					pkg := r.W.Pkg(pp)
@@ -478,6 +482,8 @@ func init() {
 							label := fmt.Sprintf("%s: delete #%d of a database record is pruning", f.Name, occ)
 							if why, ok := pruneSet[f.Name]; ok {
 								r.OK(label, r.W.Pos(call.Pos()), "in the frozen pruning set: "+why)
+							} else if via := core.OnlyUsedBy(r, f, pruneNames); via != "" {
+								r.OK(label, r.W.Pos(call.Pos()), "unexported helper used only by the pruning function(s) "+via)
 							} else {
 								r.Fail(label, r.W.Pos(call.Pos()), fmt.Sprintf("`%s` deletes persisted records outside the pruning functions: an older committed root may lose nodes", core.ExprStr(call)))
 							}
